@@ -58,5 +58,14 @@ GFan == [vs |-> <<"a", "b", "c">>,
          E |-> [e1 |-> ERec("K1", "a", "b", DW1), e2 |-> ERec("K1", "a", "c", DW2),
                 e3 |-> ERec("K2", "b", "c", DW1), e4 |-> ERec("K2", "c", "a", DE0)]]
 
-GraphFamily == <<GEmpty, GIso, GChain, GLoop, GDangle, GShared, GFan>>
+\* 8 odd property values: lists whose members are containers, containers in containers, a list under the
+\* field the other graphs keep numbers in (used by the request space of C06 and the loops of C12 only)
+DO1 == M([x |-> N(1), l |-> L(<<L(<<N(1)>>), M([k |-> N(1)]), N(2)>>), n |-> M([k |-> L(<<N(1)>>)])])
+DO2 == M([x |-> L(<<L(<<N(1)>>), M([k |-> N(1)]), N(1)>>), l |-> L(<<Null, L(<<>>)>>), s |-> M([k |-> M([j |-> Null])])])
+GOdd == [vs |-> <<"a", "b">>,
+         V |-> [a |-> VRec("L1", DO1), b |-> VRec("L2", DO2)],
+         es |-> <<"e1", "e2">>,
+         E |-> [e1 |-> ERec("K1", "a", "b", DO1), e2 |-> ERec("K2", "b", "a", DO2)]]
+
+GraphFamily == <<GEmpty, GIso, GChain, GLoop, GDangle, GShared, GFan, GOdd>>
 =======================================================================
